@@ -70,6 +70,22 @@ pub fn menu(quick: bool) -> Vec<RbSpec> {
     }
     v.push(RbSpec::Aggregate(vec![]));
     v.push(RbSpec::Slice(vec![]));
+    // the cost-model dimension exhaustively: every multiframe vector up to the stated length
+    // over {0..3} (frames that average to the first one, zero-cost frames, ...), under bursty
+    // arrivals, alone and as a component
+    let maxlen = if quick { 3 } else { 4 };
+    let other = RbSpec::Rbf(ArrSpec::Sporadic { t: 3, j: 4 }, CostSpec::Multiframe(vec![1, 0, 2]));
+    for len in 1..=maxlen {
+        for idx in 0..4u64.pow(len as u32) {
+            let frames: Vec<u64> = crate::props::uni::product_index(idx, 4, len).iter().map(|x| *x as u64).collect();
+            for a in [ArrSpec::Sporadic { t: 4, j: 6 }, ArrSpec::Sporadic { t: 2, j: 1 }, ArrSpec::Curve { dmin: vec![0, 0, 5] }] {
+                let leaf = RbSpec::Rbf(a, CostSpec::Multiframe(frames.clone()));
+                v.push(leaf.clone());
+                v.push(RbSpec::Aggregate(vec![other.clone(), leaf.clone()]));
+                v.push(RbSpec::Slice(vec![leaf, other.clone()]));
+            }
+        }
+    }
     v
 }
 
@@ -176,7 +192,7 @@ pub fn run(ctx: &mut Ctx) -> (String, Value, Vec<String>) {
     let cov = json!({
         "evaluations": evals,
         "distinct_nontrivial": nontrivial,
-        "rule": format!("every request bound of the box ({} compositions: RBF over 9 arrival x 7 cost models, boxed, Aggregate/Slice pairs, two nesting levels) x every delta 0..={h} x every job limit 0..=jobs+2: all identities of the statement recomputed from the components; non-trivial = (spec, delta) points with more than two jobs", specs.len()),
+        "rule": format!("every request bound of the box ({} compositions: RBF over 9 arrival x 7 cost models, boxed, Aggregate/Slice pairs, two nesting levels; plus every multiframe vector of length <= 3/4 over {{0..3}} under three bursty arrival models, alone and as an Aggregate/Slice component) x every delta 0..={h} x every job limit 0..=jobs+2: all identities of the statement recomputed from the components; non-trivial = (spec, delta) points with more than two jobs", specs.len()),
         "compositions": specs.len(),
         "samples": samples,
         "exhaustive": true,
